@@ -1,7 +1,8 @@
 --------------------------- MODULE Trace_FileDeploy ---------------------------
 (* C2S judge for C19.  Record: [id, gens (listing order), oldp, oldc (parallel lists: the device's files), reload ("yes"|"no"|"force"), safe,
    newp, newc, newr (new_files(): paths, contents, reload strings), upp, upc (deploy_cmds files: paths, uploaded text), cmdp (paths with a
-   reload command), cmdc (their first line), diffp (paths pc_diff yields)]                                                             *)
+   reload command), cmdc (their first line), diffp (paths pc_diff yields),
+   fullp, fullc / safep, safec (new_files() and new_files(safe=True) asked of ONE result object, in either order), stable (asking again gives the same)]                                                             *)
 EXTENDS FileDeploy, TLC, Json, IOUtils
 Recs == ndJsonDeserialize(IOEnv.TRACE_FILE)
 VARIABLE i
@@ -14,7 +15,11 @@ Verdict(r) ==
       up == Fn(r.upp, r.upc)
       force == r.reload = "force"
       want == {p \in DOMAIN new : force \/ p \notin DOMAIN old \/ old[p] # new[p]}
-  IN IF ~r.safe /\ DOMAIN new # PathsOf(r.gens) THEN "planned-paths-differ"
+      full == Fn(r.fullp, r.fullc)  sf == Fn(r.safep, r.safec)
+  IN IF DOMAIN full # PathsOf(r.gens) \/ \E p \in DOMAIN full : full[p] # plan[p].out THEN "full-plan-not-the-winners"
+     ELSE IF DOMAIN sf # SafePaths(r.gens) \/ \E p \in DOMAIN sf : sf[p] # plan[p].out THEN "safe-plan-not-the-safe-winners"
+     ELSE IF ~r.stable THEN "plan-changes-between-calls"
+     ELSE IF ~r.safe /\ DOMAIN new # PathsOf(r.gens) THEN "planned-paths-differ"
      ELSE IF r.safe /\ \E p \in DOMAIN new : \A k \in DOMAIN r.gens : r.gens[k].path = p /\ r.gens[k].out = new[p] => ~r.gens[k].safe THEN "unsafe-generator-in-safe-mode"
      ELSE IF \E p \in DOMAIN new : (~r.safe \/ plan[p].safe) /\ (new[p] # plan[p].out \/ newr[p] # plan[p].reload) THEN "content-not-from-highest-priority-generator"
      ELSE IF DOMAIN up # want THEN (IF \E p \in want : p \notin DOMAIN up THEN "changed-file-not-uploaded" ELSE "unchanged-file-uploaded")
